@@ -79,12 +79,19 @@ pub fn long_case_strategy() -> impl Strategy<Value = Case> {
 }
 
 fn small_http() -> impl Strategy<Value = HttpReq> {
-    http_req().prop_map(|mut h| {
+    (http_req(), any::<u8>()).prop_map(|(mut h, ws)| {
         h.target.0.truncate(12);
         h.headers.truncate(3);
-        for (n, v) in h.headers.iter_mut() {
+        for (i, (n, v)) in h.headers.iter_mut().enumerate() {
             n.truncate(16);
             v.0.truncate(12);
+            // whitespace between field name and colon (obsolete syntax some clients still send): C11
+            // only asks that all segmentations agree, whatever the verdict on such a line is
+            if (ws >> (2 * i)) & 3 == 1 {
+                n.push(' ');
+            } else if (ws >> (2 * i)) & 3 == 2 && ws & 0x80 != 0 {
+                n.push('\t');
+            }
         }
         h.tail.0.truncate(6);
         h
@@ -271,7 +278,7 @@ pub fn check(c: &Case, st: &mut Stats) -> Check {
         })();
         match res {
             Ok(()) => Ok(()),
-            Err(f) if first_cut < sig_len => Err(Failure::keyed("cut-inside-signature", f.msg)),
+            Err(f) if first_cut > 0 && first_cut < sig_len => Err(Failure::keyed("cut-inside-signature", f.msg)),
             Err(f) => Err(f),
         }
     };
@@ -341,6 +348,18 @@ pub fn check(c: &Case, st: &mut Stats) -> Check {
             inside += 1;
         }
         st.judge(res)?;
+    }
+    // zero-length data segments: before the stream, and at an arbitrary inner offset
+    {
+        let res = judge_seg(&[0], &mut r, st);
+        checked += 1;
+        st.judge(res)?;
+        let a = sig_len + (c.sport as usize % (n - sig_len).max(1));
+        if a < n {
+            let res = judge_seg(&[a, a], &mut r, st);
+            checked += 1;
+            st.judge(res)?;
+        }
     }
     // plain byte-by-byte delivery (all-ones composition)
     {
